@@ -17,7 +17,7 @@ RULE = ('full product: 6 weight layouts (1..3 replicas; contiguous, strided, irr
         'the layout alphabet for correlate (aligned -> product observable, otherwise exception) incl. Corr.correlate with '
         'Obs and Corr partners and undefined slices; every set partition of 2- and 3-replica observables in every block '
         'order for merge_obs; qtop_projection on every layout; the reweighted flag through one further arithmetic step and '
-        'through merge_obs.  Samples are functions of the configuration number.  Non-trivial = the observable lives on a '
+        'through merge_obs; operands compared before / after every call, every call repeated with the same objects.  Samples are functions of the configuration number.  Non-trivial = the observable lives on a '
         'proper subset of the weight, or several replicas, or a refusal is expected')
 ASSUMPTIONS = ['weights and observables are smooth functions of the configuration number plus seeded noise, so positional '
                'pairing gives visibly different numbers', 'propagation of the ratio is the C01 reference rule']
@@ -108,6 +108,12 @@ def expected_reweight(wl, wsamp, ol, osamp, all_configs):
     return exp
 
 
+def snap(o):
+    """comparable fingerprint of an operand (value, chains, configuration lists, fluctuations, replica means, flag)"""
+    return (float(o.value).hex(), tuple(o.names), tuple((n, tuple(o.idl[n]), o.deltas[n].tobytes(), float(o.r_values[n]).hex()) for n in sorted(o.deltas)),
+            bool(o.reweighted), o.N)
+
+
 def check_flag_inherited(pe, res, what):
     """flag set on the result and inherited by everything derived from it."""
     if res.reweighted is not True and res.reweighted != True:  # noqa: E712
@@ -148,8 +154,15 @@ def run_rw_allsubsets(pe, acc, case):
             if 'subset' in case and (case['subset'], case['all']) != (sub, allc):
                 continue
             try:
+                before = (snap(w), snap(o))
                 res = pe.reweight(w, [o], all_configs=allc)[0]
                 bad = ref.close(expected_reweight(wl, wsamp, ol, osamp, allc), compare.to_ref(res), 1e-10)
+                if not bad and (snap(w), snap(o)) != before:
+                    bad = 'reweight modified %s' % ('the weight' if snap(w) != before[0] else 'the observable')
+                if not bad:
+                    res2 = pe.reweight(w, [o], all_configs=allc)[0]
+                    if snap(res2) != snap(res):
+                        bad = 'a second call with the same objects gives another result'
             except Exception as e:
                 bad = 'raised %s: %s' % (type(e).__name__, e)
             if bad:
@@ -349,6 +362,17 @@ def run_correlate(pe, acc, case):
         prod = {n: sa[n] * sb[n] for n in la}
         exp = ref.r_from_samples(prod, la)
         bad = ref.close(exp, compare.to_ref(r), 1e-12)
+        if not bad:
+            before = (snap(a), snap(b))
+            r2 = pe.correlate(a, b)
+            r3 = pe.correlate(b, a)
+            if (snap(a), snap(b)) != before:
+                bad = 'correlate modified an operand'
+            elif snap(r2) != snap(r):
+                bad = 'a second call with the same objects gives another result'
+            else:
+                bad = ref.close(exp, compare.to_ref(r3), 1e-12)
+                bad = bad and 'operands exchanged: ' + bad
         if not bad and r.reweighted is not False:
             bad = 'flag %r on correlate of plain observables' % (r.reweighted,)
         if bad:
@@ -478,6 +502,13 @@ def run_merge(pe, acc, case):
                 bad = ref.close(exp, compare.to_ref(m), 1e-12)
                 if not bad and bool(m.reweighted):
                     bad = 'flag set on merge of plain observables'
+                if not bad:
+                    before = [snap(x) for x in obs]
+                    m2 = pe.merge_obs(obs)
+                    if [snap(x) for x in obs] != before:
+                        bad = 'merge_obs modified an operand'
+                    elif snap(m2) != snap(m):
+                        bad = 'a second call with the same objects gives another result'
                 if not bad:
                     for n in fl:
                         if abs(m.r_values[n] - np.mean(samp[n])) > 1e-12:
